@@ -1,4 +1,5 @@
 from algo_prop import make
+LEAN_EXTRA = ["PyXABProofs.Generated.FormulasC05"]
 ALGOS = ["T_HOO", "HCT", "VHCT"]
 budget, explore, search, replay = make("C05", ALGOS, salt=500)
 RULE = ("the documented pull/receive loop on the real classes: algorithm x partition class (K 2..5) x dimension 1..3 x box shape x "
@@ -12,3 +13,10 @@ ASSUMPTIONS = ["theorems are about the Lean models HOO/HCT(VHCT); they are tied 
                "np.sum/np.var are re-implemented in Lean; c1 is read from the object and cross-checked to 1e-9)",
                "score theorems hold for every linear order of scores and every formula record; IEEE rounding is not modelled"]
 TRUSTED = ["harness/algo_cases.py, harness/monitors.py, harness/common.py (instrumented partition subclasses, RNG patching)", "lean/PyXABModel/Drv (driver)"]
+
+
+def regenerate(tier):
+    """translator tie for the numeric formulas: the real node methods are traced symbolically and re-proved equal to the
+    published formulas (Spec/Formulas.lean) over every field, on every run"""
+    import translate_formulas
+    return translate_formulas.generate("C05")
